@@ -144,6 +144,14 @@ func checkLexer(c *checkCtx, prop string) {
 		c.cov.Rule = "rule sets including rules that can match the empty string and accumulating fragments; every emitted table must satisfy progress_ok (hypothesis of lex_total / lex_tiling); inputs are valid texts cut at every position; the lexer must reach EOF with every byte accounted for"
 	}
 	c.coqObligations()
+	if prop == "C10" {
+		nEnc := 300
+		if c.thorough() {
+			nEnc = 5000
+		}
+		checkTableEncoder(c, nEnc)
+		checkShippedParserArrays(c)
+	}
 
 	nSpecs, nInputs := 40, 25
 	if c.thorough() {
@@ -397,4 +405,60 @@ func appendRune(b []byte, cp int) []byte {
 		return b
 	}
 	return append(b, []byte(string(rune(cp)))...)
+}
+
+// checkShippedParserArrays: parser arrays vs constructed automaton for a batch
+// of generated grammars (incl. ones with precedence) and the shipped ones.
+func checkShippedParserArrays(c *checkCtx) {
+	ws := newWorkspace("c10p")
+	defer ws.close()
+	n := 12
+	if c.thorough() {
+		n = 120
+	}
+	for i := 0; i < n*3 && len(ws.specs) < n*3; i++ {
+		var g *gSpec
+		if i%3 == 0 {
+			g = genPrecGrammar(c.rng)
+		} else {
+			g = genGrammar(c.rng, gramOpts{maxRules: 5, maxTokens: 5, allowError: i%2 == 0})
+		}
+		ws.add(g.text())
+	}
+	if err := ws.dumpAll(); err != nil {
+		return
+	}
+	used := 0
+	for _, s := range ws.specs {
+		if used < n && s.dump.OK && !s.dump.HasConflicts {
+			s.goText = genUserGo(s.dump, userOpts{})
+			used++
+		}
+	}
+	ws.genAll()
+	for _, s := range ws.specs {
+		if s.goText == "" || s.loxCode != 0 {
+			continue
+		}
+		if t, err := readParserTables(s.dir); err == nil {
+			c.note("parr"+s.loxText, len(s.dump.States) > 4)
+			checkParserArraysVsDump(c, s, t)
+		}
+	}
+	dumps, err := dumpDirs(func() []string {
+		var ds []string
+		for _, d := range shippedDirs {
+			ds = append(ds, repoDir+"/"+d)
+		}
+		return ds
+	}())
+	if err == nil {
+		for i, d := range shippedDirs {
+			if t, err := readParserTables(repoDir + "/" + d); err == nil && dumps[i].OK {
+				s := &wsSpec{name: d, dump: dumps[i], loxText: "shipped: " + d}
+				c.note("parr"+d, true)
+				checkParserArraysVsDump(c, s, t)
+			}
+		}
+	}
 }
